@@ -95,6 +95,8 @@ def feeAccount : Addr := 0x3966eafd38c5f10cc91eaacaeff1b6682b83ced4
 def txFee : Nat := 1000000000000000
 /-- `defaultGasPrice` / `types.DefaultGasPrice` -/
 def gasPrice : Nat := 1000000000
+/-- `defaultGasLimit` -/
+def p015GasLimit : Nat := 6000000
 def p017GasLimit : Nat := 30000000
 def p026GasLimit : Nat := 900000000
 def gasMagnification : Nat := 30
@@ -124,6 +126,27 @@ def scaleMul (k n : Nat) : Nat := n * k
 /-- gas units to wei at the fixed gas price -/
 def gasCost (gas : Nat) : Nat := scale gasPrice gas
 
+/-! ### Fork configuration -/
+
+/-- The proposal flags the ledger paths test (`common.IsProposalNNN()` at the block height):
+    002 balance writes are journaled (`SetData`) instead of written through (`setData`);
+    015 gas accounting of contract transactions (intrinsic gas, pre-check, gas fee);
+    017 default gas limit 30M instead of 6M; 018 a transaction refused by `BeforeExecute` is evicted;
+    026 transaction fee 0.001 instead of 0.0001 and gas magnification 30; 027 failed contract transactions pay gas.
+    Default: everything on (the `dev` schedule, main-net after Proposal027Block). -/
+structure Flags where
+  p002 : Bool := true
+  p015 : Bool := true
+  p017 : Bool := true
+  p018 : Bool := true
+  p026 : Bool := true
+  p027 : Bool := true
+
+/-- `delta = StrToBigInt("0.0001")` before Proposal026 -/
+def txFeeOld : Nat := 100000000000000
+
+def txFeeOf (fl : Flags) : Nat := if fl.p026 then txFee else txFeeOld
+
 /-! ### Operator (asset transfer) transactions: service/game.go -/
 
 /-- `transferBalance`: parse, sign test, balance test, credit target, debit source (result dropped).
@@ -146,9 +169,19 @@ def changeAssets (b : Bal) (src : Addr) : List (Addr × Amount) → Option Bal
     | some b' => changeAssets b' src rest
 
 /-- `TxPool.ProcessFee` (Proposal026 fee): `none` = "not enough max" error, nothing changed. -/
-def processFee (b : Bal) (src : Addr) : Option Bal :=
-  if get b src < txFee then none
-  else some (addBal (subBal b src txFee).1 feeAccount txFee)
+def processFeeWith (fee : Nat) (b : Bal) (src : Addr) : Option Bal :=
+  if get b src < fee then none
+  else some (addBal (subBal b src fee).1 feeAccount fee)
+
+def processFee (b : Bal) (src : Addr) : Option Bal := processFeeWith txFee b src
+
+/-- `ChangeAssets` as far as it got: the balances when it stopped. Before Proposal002 nothing restores them. -/
+def changeAssetsPartial (b : Bal) (src : Addr) : List (Addr × Amount) → Bal
+  | [] => b
+  | (t, a) :: rest =>
+    match transferBalance b src t a with
+    | none => b
+    | some b' => changeAssetsPartial b' src rest
 
 /-! ### EVM frame skeleton -/
 
@@ -269,6 +302,8 @@ structure St where
   excess : Nat := 0
   /-- height of the block being executed (constant during a block) -/
   height : Nat := 0
+  /-- journal of `suicideChange` entries (contract, balance recorded by `Suicide`), newest first -/
+  sj : List (Addr × Nat) := []
 
 /-- Addresses handed to CREATE/CREATE2 frames: above the 160-bit range, so never one of the op-line addresses
     (in the code: keccak of (creator, nonce) / (creator, salt, code); collision with a live address is the
@@ -280,11 +315,26 @@ def suicide (s : St) (self ben : Addr) : St :=
   let v := get s.bal self
   let b1 := addBal s.bal ben v
   { s with bal := put b1 self 0
+           sj := (self, get b1 self) :: s.sj
            dead := self :: s.dead
            burned := s.burned + (if ben = self then v else 0) }
 
 /-- A failed frame is reverted to the snapshot taken at frame entry; only the address counter survives. -/
 def revertTo (snap after : St) : St := { snap with fresh := after.fresh }
+
+/-- `suicideChange.undo` of the entries made since the snapshot, newest first: `setBalance(contract, prevbalance)` -/
+def undoSuicides (b : Bal) : List (Addr × Nat) → Bal
+  | [] => b
+  | (a, p) :: r => undoSuicides (put b a p) r
+
+/-- `RevertToSnapshot` under the fork flag 002. Journaled (`jr = true`): everything returns to the snapshot.
+    Before Proposal002 balance slots are written with `setData`, which bypasses the journal: a revert leaves every
+    balance as it is, except that `suicideChange.undo` writes back the balance `Suicide` recorded. Registry, escrow and
+    the suicided marks are journaled in both regimes. -/
+def revertToJ (jr : Bool) (snap after : St) : St :=
+  if jr then revertTo snap after
+  else { snap with fresh := after.fresh,
+                   bal := undoSuicides after.bal (after.sj.take (after.sj.length - snap.sj.length)) }
 
 def refundDelay : Nat := 36000
 
@@ -337,7 +387,7 @@ def opUnStakeAll (code : Code) (s : St) (self : Addr) : Option St :=
     entry costs at least one unit, running out is the out-of-gas error of that frame.
     `ro` = static context (`interpreter.readOnly`). `origin` = `evm.Origin` (the AUTHCALL sponsor).
     Result: state and whether the frame ended without error. -/
-def exec (code : Code) (origin : Addr) : Nat → Addr → Bool → Script → St → St × Bool
+def exec (code : Code) (origin : Addr) (jr : Bool) : Nat → Addr → Bool → Script → St → St × Bool
   | 0, _, _, _, s => (s, false)
   | _ + 1, _, _, [], s => (s, true)
   | f + 1, self, ro, a :: rest, s =>
@@ -352,24 +402,24 @@ def exec (code : Code) (origin : Addr) : Nat → Addr → Bool → Script → St
       let s1 :=
         if v != 0 && !canTransfer s.bal self v then s
         else
-          let r := exec code origin f to ro (codeAt code to) { s with bal := vmTransfer s.bal self to v }
-          if r.2 then r.1 else revertTo s r.1
-      exec code origin f self ro rest s1
+          let r := exec code origin jr f to ro (codeAt code to) { s with bal := vmTransfer s.bal self to v }
+          if r.2 then r.1 else revertToJ jr s r.1
+      exec code origin jr f self ro rest s1
     | .callcode to v =>
       -- evm.CallCode: balance test only, code of `to` runs as `self`
       let s1 :=
         if !canTransfer s.bal self v then s
         else
-          let r := exec code origin f self ro (codeAt code to) s
-          if r.2 then r.1 else revertTo s r.1
-      exec code origin f self ro rest s1
+          let r := exec code origin jr f self ro (codeAt code to) s
+          if r.2 then r.1 else revertToJ jr s r.1
+      exec code origin jr f self ro rest s1
     | .delegatecall to =>
-      let r := exec code origin f self ro (codeAt code to) s
-      exec code origin f self ro rest (if r.2 then r.1 else revertTo s r.1)
+      let r := exec code origin jr f self ro (codeAt code to) s
+      exec code origin jr f self ro rest (if r.2 then r.1 else revertToJ jr s r.1)
     | .staticcall to =>
       -- evm.StaticCall: AddBalance(addr, 0) touch, then run read-only
-      let r := exec code origin f to true (codeAt code to) { s with bal := addBal s.bal to 0 }
-      exec code origin f self ro rest (if r.2 then r.1 else revertTo s r.1)
+      let r := exec code origin jr f to true (codeAt code to) { s with bal := addBal s.bal to 0 }
+      exec code origin jr f self ro rest (if r.2 then r.1 else revertToJ jr s r.1)
     | .create v init =>
       if ro then (s, false) else
       -- evm.create
@@ -378,46 +428,46 @@ def exec (code : Code) (origin : Addr) : Nat → Addr → Bool → Script → St
         else
           let na := freshAddr s.fresh
           let s0 : St := { s with fresh := s.fresh + 1 }
-          let r := exec code origin f na false init { s0 with bal := vmTransfer s0.bal self na v }
-          if r.2 then r.1 else revertTo s0 r.1
-      exec code origin f self ro rest s1
-    | .stake v => exec code origin f self ro rest (opStake s self v)
-    | .unstake v => exec code origin f self ro rest (opUnStake code origin s self v)
+          let r := exec code origin jr f na false init { s0 with bal := vmTransfer s0.bal self na v }
+          if r.2 then r.1 else revertToJ jr s0 r.1
+      exec code origin jr f self ro rest s1
+    | .stake v => exec code origin jr f self ro rest (opStake s self v)
+    | .unstake v => exec code origin jr f self ro rest (opUnStake code origin s self v)
     | .unstakeAll =>
       match opUnStakeAll code s self with
       | none => (s, false)
-      | some s1 => exec code origin f self ro rest s1
+      | some s1 => exec code origin jr f self ro rest s1
     | .authcall to v =>
       -- evm.AuthCall with a valid authorisation: the sponsor (tx origin) pays the value
       let s1 :=
         if v != 0 && !canTransfer s.bal origin v then s
         else
-          let r := exec code origin f to ro (codeAt code to) { s with bal := vmTransfer s.bal origin to v }
-          if r.2 then r.1 else revertTo s r.1
-      exec code origin f self ro rest s1
+          let r := exec code origin jr f to ro (codeAt code to) { s with bal := vmTransfer s.bal origin to v }
+          if r.2 then r.1 else revertToJ jr s r.1
+      exec code origin jr f self ro rest s1
 
 /-- Top-level `evm.Call(origin, addr, input, gas, value)` as issued by the contract executor; `value` is the
     decoded `transferValue`, a `big.Int` that may be negative. -/
-def evmCallTop (code : Code) (fuel : Nat) (origin addr : Addr) (v : Int) (s : St) : St × Bool :=
+def evmCallTop (code : Code) (jr : Bool) (fuel : Nat) (origin addr : Addr) (v : Int) (s : St) : St × Bool :=
   if v != 0 && !canTransfer s.bal origin v then (s, false)
   else
-    let r := exec code origin fuel addr false (codeAt code addr) { s with bal := vmTransfer s.bal origin addr v }
-    if r.2 then r else (revertTo s r.1, false)
+    let r := exec code origin jr fuel addr false (codeAt code addr) { s with bal := vmTransfer s.bal origin addr v }
+    if r.2 then r else (revertToJ jr s r.1, false)
 
 /-- Top-level `evm.Create(origin, code, gas, value)`. -/
-def evmCreateTop (code : Code) (fuel : Nat) (origin : Addr) (v : Int) (init : Script) (s : St) : St × Bool :=
+def evmCreateTop (code : Code) (jr : Bool) (fuel : Nat) (origin : Addr) (v : Int) (init : Script) (s : St) : St × Bool :=
   if !canTransfer s.bal origin v then (s, false)
   else
     let na := freshAddr s.fresh
     let s0 : St := { s with fresh := s.fresh + 1 }
-    let r := exec code origin fuel na false init { s0 with bal := vmTransfer s0.bal origin na v }
-    if r.2 then r else (revertTo s0 r.1, false)
+    let r := exec code origin jr fuel na false init { s0 with bal := vmTransfer s0.bal origin na v }
+    if r.2 then r else (revertToJ jr s0 r.1, false)
 
 /-! ### Contract transactions: executor/contract_executor.go -/
 
 /-- `strconv.ParseUint(s, 10, 64)` preceded by the `"" / "0"` default of `decodeContractData`. -/
-def parseGasLimit (s : String) : Option Nat :=
-  if s = "" || s = "0" then some p017GasLimit
+def parseGasLimit (fl : Flags) (s : String) : Option Nat :=
+  if s = "" || s = "0" then some (if fl.p017 then p017GasLimit else p015GasLimit)
   else
     let cs := s.toList
     if cs.all isDigit then
@@ -427,8 +477,8 @@ def parseGasLimit (s : String) : Option Nat :=
 
 /-- `IntrinsicGas` under Proposal026 for `nz` non-zero and `z` zero input bytes (no uint64 overflow for
     inputs below 2^40 bytes; the driver refuses longer ones). -/
-def intrinsicGas (create : Bool) (nz z : Nat) : Nat :=
-  ((if create then txGasCreate else txGas) + nz * nonZeroByteGas + z * zeroByteGas) * gasMagnification
+def intrinsicGas (fl : Flags) (create : Bool) (nz z : Nat) : Nat :=
+  ((if create then txGasCreate else txGas) + nz * nonZeroByteGas + z * zeroByteGas) * (if fl.p026 then gasMagnification else 1)
 
 structure ContractTx where
   src : Addr
@@ -449,20 +499,22 @@ inductive Status where
 
 /-- Outcome of `BeforeExecute` of the contract / jsonrpc executor.
     `.inl status` = stop with that status; `.inr (bal, rawGasLimit, value)` = go on to Execute. -/
-def contractBefore (b : Bal) (t : ContractTx) : (Status × Bal) ⊕ (Bal × Nat × Int) :=
-  if t.eth && !t.nonceOk then .inl (.evicted, b) else
-  match processFee b t.src with
-  | none => .inl ((if t.eth then .evicted else .failed), b)
+def contractBefore (fl : Flags) (b : Bal) (t : ContractTx) : (Status × Bal) ⊕ (Bal × Nat × Int) :=
+  -- a transaction the jsonrpc executor reports as not addable is evicted from Proposal018 on, failed before
+  let refused : Status := if t.eth && fl.p018 then .evicted else .failed
+  if t.eth && !t.nonceOk then .inl (refused, b) else
+  match processFeeWith (txFeeOf fl) b t.src with
+  | none => .inl (refused, b)
   | some b1 =>
     if !t.jsonOk then .inl (.failed, b1) else
-    match parseGasLimit t.gasLimit with
+    match parseGasLimit fl t.gasLimit with
     | none => .inl (.failed, b1)
     | some raw =>
       match strToBigInt t.value with
       | .err => .inl (.failed, b1)
       | .val v =>
-        -- preCheckContractFee: balance < gasLimit*price + value  →  ErrInsufficientFunds
-        if ((get b1 t.src : Nat) : Int) < ((gasCost raw : Nat) : Int) + v then .inl (.failed, b1)
+        -- preCheckContractFee (Proposal015): balance < gasLimit*price + value  →  ErrInsufficientFunds
+        if fl.p015 && decide (((get b1 t.src : Nat) : Int) < ((gasCost raw : Nat) : Int) + v) then .inl (.failed, b1)
         else .inr (b1, raw, v)
 
 /-- Charging a gas fee: clamp `gasUsed * price` to the balance, debit the sender, credit the fee account.
@@ -477,13 +529,15 @@ def deductGasFee (b : Bal) (src : Addr) (gasUsed : Nat) : Bal := chargeGas b src
 
 /-- `contractExecutor.Execute`. Returns the state, success flag, and the new `context["gasUsed"]`
     (`none` = this call did not assign it). -/
-def contractExecute (code : Code) (fuel : Nat) (t : ContractTx) (raw : Nat) (v : Int) (s : St) :
+def contractExecute (fl : Flags) (code : Code) (fuel : Nat) (t : ContractTx) (raw : Nat) (v : Int) (s : St) :
     St × Bool × Option Nat :=
-  let ig := intrinsicGas t.target.isNone t.nz t.z
-  if raw < ig then (s, false, none) else
+  let ig := intrinsicGas fl t.target.isNone t.nz t.z
+  if fl.p015 && decide (raw < ig) then (s, false, none) else
   let r := match t.target with
-    | none => evmCreateTop code fuel t.src v t.init s
-    | some a => evmCallTop code fuel t.src a v s
+    | none => evmCreateTop code fl.p002 fuel t.src v t.init s
+    | some a => evmCallTop code fl.p002 fuel t.src a v s
+  -- before Proposal015 there is no gas accounting at all
+  if !fl.p015 then (r.1, r.2, none) else
   -- gasFeeUsed = gasUsed * price, clamped to the sender's balance (second `fix:` commit of
   -- known-findings.txt), SubBalance(source) — result dropped — and AddBalance(FeeAccount): the same three
   -- steps as `deductGasFee` in core/vmexecutor.go, hence the same model function
@@ -573,63 +627,69 @@ structure World where
   st : St
   code : Code
   ctx : Ctx
+  fl : Flags := {}
 
 def defaultFuel : Nat := 4096
 
-/-- One iteration of the transaction loop. -/
+/-- One iteration of the transaction loop under the fork flags `w.fl`. -/
 def execTx (fuel : Nat) (w : World) : Tx → World × Status
   | .operator src dataOk targets =>
-    match processFee w.st.bal src with
+    match processFeeWith (txFeeOf w.fl) w.st.bal src with
     | none => (w, .failed)
     | some b1 =>
       -- snapshot; operatorExecutor.Execute; revert on failure
       if !dataOk then ({ w with st := { w.st with bal := b1 } }, .failed) else
       match changeAssets b1 src targets with
-      | none => ({ w with st := { w.st with bal := b1 } }, .failed)
+      | none =>
+        -- before Proposal002 the revert does not restore the transfers already made
+        ({ w with st := { w.st with bal := if w.fl.p002 then b1 else changeAssetsPartial b1 src targets } }, .failed)
       | some b2 => ({ w with st := { w.st with bal := b2 } }, .success)
   | .apply src id typ stake account keysOk =>
-    match processFee w.st.bal src with
+    match processFeeWith (txFeeOf w.fl) w.st.bal src with
     | none => (w, .failed)
     | some b1 =>
       match minerApply { w.st with bal := b1 } src id typ stake account keysOk with
       | none => ({ w with st := { w.st with bal := b1 } }, .failed)
       | some s2 => ({ w with st := s2 }, .success)
   | .addStake src id delta =>
-    match processFee w.st.bal src with
+    match processFeeWith (txFeeOf w.fl) w.st.bal src with
     | none => (w, .failed)
     | some b1 =>
       match minerAdd { w.st with bal := b1 } src id delta with
       | none => ({ w with st := { w.st with bal := b1 } }, .failed)
       | some s2 => ({ w with st := s2 }, .success)
   | .refund src id amount signed =>
-    match processFee w.st.bal src with
+    match processFeeWith (txFeeOf w.fl) w.st.bal src with
     | none => (w, .failed)
     | some b1 =>
       match minerRefund w.code { w.st with bal := b1 } src id amount signed with
       | none => ({ w with st := { w.st with bal := b1 } }, .failed)
       | some (s2, pend) => ({ w with st := s2, ctx := { w.ctx with pending := w.ctx.pending ++ pend } }, .success)
   | .node src newAcct mainOk =>
-    match processFee w.st.bal src with
+    match processFeeWith (txFeeOf w.fl) w.st.bal src with
     | none => (w, .failed)
     | some b1 =>
       match nodeTx { w.st with bal := b1 } src newAcct mainOk with
-      | none => ({ w with st := { w.st with bal := b1 } }, .failed)
+      | none =>
+        -- the 10 RPG are debited before the registry steps; before Proposal002 a failure does not give them back
+        ({ w with st := { w.st with bal := if w.fl.p002 || decide (get b1 src < nodeFee) then b1
+                                            else (subBal b1 src nodeFee).1 } }, .failed)
       | some s2 => ({ w with st := s2 }, .success)
   | .contract t =>
-    match contractBefore w.st.bal t with
+    match contractBefore w.fl w.st.bal t with
     | .inl (status, b) => ({ w with st := { w.st with bal := b } }, status)
     | .inr (b1, raw, v) =>
       let s1 : St := { w.st with bal := b1 }
-      let r := contractExecute w.code fuel t raw v s1
+      let r := contractExecute w.fl w.code fuel t raw v s1
       let ctx' : Ctx := match r.2.2 with
         | some g => { w.ctx with gasUsed := some g }
         | none => w.ctx
       if r.2.1 then ({ w with st := r.1, ctx := ctx' }, .success)
       else
         -- RevertToSnapshot, then (Proposal027) deductGasFee with whatever context["gasUsed"] holds
-        let s2 := revertTo s1 r.1
+        let s2 := revertToJ w.fl.p002 s1 r.1
         let b3 := match ctx'.gasUsed with
-          | some g => deductGasFee s2.bal t.src g
+          | some g => if w.fl.p027 then deductGasFee s2.bal t.src g else s2.bal
           | none => s2.bal
         ({ w with st := { s2 with bal := b3 }, ctx := ctx' }, .failed)
 
@@ -668,6 +728,6 @@ def execBlock (fuel : Nat) (w : World) (h : Nat) (txs : List Tx) (rewards : Escr
   let w' := r.1
   let a := afterBlock w'.st.bal w'.st.escrow h (w'.ctx.pending ++ rewards)
   ({ w' with code := dropCode w'.code w'.st.dead,
-             st := { w'.st with dead := [], bal := a.1, escrow := a.2, reg := markVisible w'.st.reg } }, r.2)
+             st := { w'.st with dead := [], sj := [], bal := a.1, escrow := a.2, reg := markVisible w'.st.reg } }, r.2)
 
 end Rangers.Ledger
